@@ -1,7 +1,7 @@
 (* Proofs/PatternUnvPath.v -- C10: object paths of the object model and the
    path `unvisit` gives them.                                               *)
 From Coq Require Import NArith ZArith List String Bool Lia.
-From V Require Import Model.PatternSyntax Proofs.PatternNumbers Proofs.PatternLit Proofs.PatternPath
+From V Require Import Model.PatternSyntax Spec.PatternSpec Proofs.PatternR Proofs.PatternNumbers Proofs.PatternLit Proofs.PatternPath
   Proofs.PatternCmp Proofs.PatternObs Proofs.PatternEscape Proofs.PatternTokens Proofs.PatternMeaning
   Proofs.PatternUnvConst.
 Import ListNotations.
@@ -50,13 +50,6 @@ Qed.
 
 (* ---- printable components ---- *)
 
-Definition comp_name (c : acomp) : ustring := match c with ABasic n | ARef n => n | AList n _ => n end.
-Definition name_ok (n : ustring) : bool := kind_in (name_tok n) [KIdent; KString].
-Definition idx_okA (i : aindex) : bool := kind_in (idx_tok i) [KIntPos; KIntNeg; KASTERISK].
-Definition comp_okA (c : acomp) : bool :=
-  name_ok (comp_name c) && match c with AList _ i => idx_okA i | _ => true end.
-Definition apath_ok (p : apath) : bool :=
-  kind_in (type_tok (ap_type p)) [KIdent; KIdentHyphen] && negb (is_nil (ap_comps p)) && forallb comp_okA (ap_comps p).
 
 Lemma toks_of_app : forall a b, toks_of (a ++ b) = toks_of a ++ toks_of b.
 Proof. induction a as [|[t|] a IH]; intros b; cbn [List.app toks_of]; [reflexivity| |]; rewrite IH; reflexivity. Qed.
@@ -76,7 +69,7 @@ Proof. destruct c; reflexivity. Qed.
 Lemma later_wf : forall c, comp_okA c = true -> forallb wf_pstep (psteps_of_comp c) = true.
 Proof.
   intros c H. unfold comp_okA, name_ok in H. apply andb_true_iff in H. destruct H as [Hn Hi].
-  destruct c; cbn [psteps_of_comp forallb wf_pstep comp_name] in *; rewrite Hn; [reflexivity| |reflexivity].
+  destruct c; cbn [PatternSyntax.psteps_of_comp forallb wf_pstep comp_name] in *; rewrite Hn; [reflexivity| |reflexivity].
   unfold pstep_of_idx. cbn [wf_pstep]. unfold idx_okA in Hi. rewrite Hi. reflexivity.
 Qed.
 
@@ -91,7 +84,7 @@ Qed.
 Lemma later_meaning : forall c, comp_okA c = true -> map m_pstep (psteps_of_comp c) = ma_comp c.
 Proof.
   intros c H. unfold comp_okA in H. apply andb_true_iff in H. destruct H as [Hn Hi].
-  destruct c; cbn [psteps_of_comp map m_pstep ma_comp]; try reflexivity.
+  destruct c; cbn [PatternSyntax.psteps_of_comp map m_pstep PatternSyntax.ma_comp]; try reflexivity.
   unfold pstep_of_idx. rewrite (idx_tok_meaning idx Hi). reflexivity.
 Qed.
 
@@ -130,7 +123,7 @@ Proof.
   apply andb_true_iff in H. destruct H as [H Hc]. apply andb_true_iff in H. destruct H as [Hty Hne].
   destruct comps as [|c r]; [discriminate|]. cbn [forallb] in Hc. apply andb_true_iff in Hc. destruct Hc as [Hc0 Hr].
   assert (Hr' : forall x, In x r -> comp_okA x = true) by (apply forallb_forall; exact Hr).
-  unfold unv_path. cbn [ap_comps ap_type].
+  unfold PatternSyntax.unv_path. cbn [ap_comps ap_type].
   set (fs := match c with ABasic n | ARef n => (name_tok n, []) | AList n i => (name_tok n, [pstep_of_idx i]) end).
   eexists. split; [reflexivity|].
   destruct (path_by_steps (type_tok ty) (fst fs) (snd fs ++ flat_map psteps_of_comp r)) as [_ [Y [W M]]].
@@ -141,68 +134,62 @@ Proof.
   destruct Hf as [Hf1 Hf2].
   split; [|split].
   - rewrite W, Hty, Hf1, forallb_app, Hf2. cbn [andb]. apply forallb_flat_map. intros x Hx. apply later_wf, Hr', Hx.
-  - rewrite Y. unfold pr_path. cbn [ap_type ap_comps map]. rewrite toks_of_app, toks_sep_dot. cbn [toks_of List.app].
+  - rewrite Y. unfold PatternSyntax.pr_path. cbn [ap_type ap_comps map]. rewrite toks_of_app, toks_sep_dot. cbn [toks_of List.app].
     f_equal. f_equal. rewrite flat_map_app, later_yield_all.
     assert (E : fst fs :: flat_map yield_pstep (snd fs) = toks_of (pr_comp c)) by (subst fs; destruct c; reflexivity).
     rewrite <- E. reflexivity.
-  - rewrite M. unfold ma_path. cbn [ap_type ap_comps flat_map]. unfold type_tok. cbn [tx]. f_equal.
+  - rewrite M. unfold PatternSyntax.ma_path. cbn [ap_type ap_comps flat_map]. unfold type_tok. cbn [tx]. f_equal.
     rewrite map_app, map_flat_map.
     rewrite (flat_map_ext_in _ _ _ ma_comp r (fun x Hx => later_meaning x (Hr' x Hx))).
     change (MKey (m_name_text (tx (fst fs))) :: map m_pstep (snd fs) ++ ?x) with ((MKey (m_name_text (tx (fst fs))) :: map m_pstep (snd fs)) ++ x).
     f_equal. unfold comp_okA in Hc0. apply andb_true_iff in Hc0. destruct Hc0 as [Hn Hi].
-    subst fs. destruct c; cbn [fst snd map ma_comp]; try reflexivity.
+    subst fs. destruct c; cbn [fst snd map PatternSyntax.ma_comp]; try reflexivity.
     unfold pstep_of_idx. rewrite (idx_tok_meaning idx Hi). reflexivity.
 Qed.
 
 (* ------------------------------------------------------------------ *)
 (** * Paths of the shape the visitor produces *)
 
-Definition lexb (s : ustring) : bool := match lex_body s with Some _ => true | None => false end.
-Definition vidx (i : aindex) : bool := match i with IdxInt _ => true | IdxStr s => ustr_eqb s (u "*") end.
-Definition is_int_idx (i : aindex) : bool := match i with IdxInt _ => true | IdxStr _ => false end.
-Definition vfirst (c : acomp) : bool :=
-  match c with
-  | ABasic n => ident_ok n || string_ok n
-  | AList n i => (ident_ok n || string_ok n) && vidx i
-  | ARef _ => false
-  end.
-Definition vlater (c : acomp) : bool :=
-  match c with
-  | ABasic n => ident_ok n || (mem_N c_hyphen n && lexb n)
-  | AList n i => (ident_ok n && vidx i) || (string_ok n && is_int_idx i)
-  | ARef _ => false
-  end.
-Definition vpath (p : apath) : bool :=
-  kind_in (type_tok (ap_type p)) [KIdent; KIdentHyphen] &&
-  match ap_comps p with c :: r => vfirst c && forallb vlater r | [] => false end.
 
 Lemma string_ok_starts : forall n, string_ok n = true -> starts_with_quote n = true.
 Proof. intros n H. destruct (string_ok_shape n H) as [b [E _]]. subst n. reflexivity. Qed.
 
+Lemma plain_lexb : forall s, forallb plain_char s = true -> lex_body s = Some s.
+Proof.
+  induction s as [|c r IH]; intros H; [reflexivity|]. cbn [forallb] in H. apply andb_true_iff in H. destruct H as [Hc Hr].
+  unfold plain_char in Hc. apply andb_true_iff in Hc. destruct Hc as [Hc Hb]. apply andb_true_iff in Hc. destruct Hc as [_ Hq].
+  apply negb_true_iff in Hb, Hq. cbn [lex_body]. rewrite Hb, Hq, (IH Hr). reflexivity.
+Qed.
+
+Lemma ident_lexb : forall n, ident_ok n = true -> lexb n = true.
+Proof. intros n H. unfold lexb. rewrite (plain_lexb n (ident_chars_plain n H)). reflexivity. Qed.
+
+Lemma lexb_no_quote : forall n, lexb n = true -> starts_with_quote n = false.
+Proof. intros n H. apply lex_body_no_quote_start. unfold lexb in H. destruct (lex_body n); [discriminate|discriminate]. Qed.
+
 Lemma name_tok_ident : forall n, ident_ok n = true -> name_tok n = Tok KIdent n.
 Proof.
-  intros n H. pose proof (ident_chars_plain n H) as P. unfold name_tok, quote_if_needed.
-  rewrite (plain_no_hyphen n P). cbn [andb]. rewrite (plain_no_quote_start n P). reflexivity.
+  intros n H. pose proof (ident_chars_plain n H) as P. unfold PatternSyntax.name_tok. rewrite quote_if_needed_rep.
+  rewrite H, andb_false_r. cbn zeta. rewrite (plain_no_quote_start n P). reflexivity.
 Qed.
 Lemma name_tok_string : forall n, string_ok n = true -> name_tok n = Tok KString n.
 Proof.
-  intros n H. pose proof (string_ok_starts n H) as S. unfold name_tok, quote_if_needed.
-  rewrite S, andb_false_r, S. reflexivity.
+  intros n H. pose proof (string_ok_starts n H) as S. unfold PatternSyntax.name_tok. rewrite quote_if_needed_rep.
+  rewrite S. cbn [negb andb]. cbn zeta. rewrite S. reflexivity.
 Qed.
-Lemma lexb_no_quote : forall n, lexb n = true -> starts_with_quote n = false.
-Proof. intros n H. apply lex_body_no_quote_start. unfold lexb in H. destruct (lex_body n); [discriminate|discriminate]. Qed.
-Lemma name_tok_hyphen : forall n, mem_N c_hyphen n = true -> lexb n = true -> name_tok n = Tok KString (c_quote :: n ++ [c_quote]).
+Lemma name_tok_body : forall n, lexb n = true -> ident_ok n = false -> name_tok n = Tok KString (c_quote :: n ++ [c_quote]).
 Proof.
-  intros n Hh Hl. unfold name_tok, quote_if_needed. rewrite Hh, (lexb_no_quote n Hl). reflexivity.
+  intros n Hl Hi. unfold PatternSyntax.name_tok. rewrite quote_if_needed_rep, Hi, (lexb_no_quote n Hl). reflexivity.
 Qed.
 
 Lemma name_ok_ident : forall n, ident_ok n = true -> name_ok n = true.
 Proof. intros n H. unfold name_ok. rewrite (name_tok_ident n H). apply kind_in_make; [reflexivity|exact H]. Qed.
 Lemma name_ok_string : forall n, string_ok n = true -> name_ok n = true.
 Proof. intros n H. unfold name_ok. rewrite (name_tok_string n H). apply kind_in_make; [reflexivity|exact H]. Qed.
-Lemma name_ok_hyphen : forall n, mem_N c_hyphen n = true -> lexb n = true -> name_ok n = true.
+Lemma name_ok_body : forall n, lexb n = true -> name_ok n = true.
 Proof.
-  intros n Hh Hl. unfold name_ok. rewrite (name_tok_hyphen n Hh Hl). apply kind_in_make; [reflexivity|].
+  intros n Hl. destruct (ident_ok n) eqn:Hi; [apply name_ok_ident; exact Hi|].
+  unfold name_ok. rewrite (name_tok_body n Hl Hi). apply kind_in_make; [reflexivity|].
   unfold token_ok. cbn [tk tx]. apply string_token_ok. unfold lexb in Hl. destruct (lex_body n); [discriminate|discriminate].
 Qed.
 
@@ -212,8 +199,6 @@ Proof.
   - fold (int_tok z). destruct (int_tok_kind z) as [[K|K] O]; apply kind_in_make; try exact O; rewrite K; reflexivity.
   - cbn [vidx] in H. rewrite H. apply kind_in_make; [reflexivity|]. unfold token_ok. cbn [tk tx]. exact H.
 Qed.
-Lemma is_int_vidx : forall i, is_int_idx i = true -> vidx i = true.
-Proof. intros [z|s] H; [reflexivity|discriminate]. Qed.
 
 Lemma vfirst_ok : forall c, vfirst c = true -> comp_okA c = true.
 Proof.
@@ -225,11 +210,9 @@ Qed.
 Lemma vlater_ok : forall c, vlater c = true -> comp_okA c = true.
 Proof.
   intros c H. unfold comp_okA. destruct c as [n|n i|n]; cbn [vlater comp_name] in *; [| |discriminate].
-  - rewrite andb_true_r. apply orb_true_iff in H. destruct H as [H|H]; [apply name_ok_ident; exact H|].
-    apply andb_true_iff in H. destruct H. apply name_ok_hyphen; assumption.
-  - apply orb_true_iff in H. destruct H as [H|H]; apply andb_true_iff in H; destruct H as [Hn Hi].
-    + rewrite (name_ok_ident n Hn), (vidx_ok i Hi). reflexivity.
-    + rewrite (name_ok_string n Hn), (vidx_ok i (is_int_vidx i Hi)). reflexivity.
+  - rewrite andb_true_r. apply name_ok_body. exact H.
+  - apply andb_true_iff in H. destruct H as [Hn Hi]. rewrite (vidx_ok i Hi), andb_true_r.
+    apply orb_true_iff in Hn. destruct Hn; [apply name_ok_ident|apply name_ok_string]; assumption.
 Qed.
 
 Lemma vpath_ok : forall p, vpath p = true -> apath_ok p = true.
@@ -250,9 +233,9 @@ Definition after_sem (l : list pstep) : bool :=
 Definition starts_key (l : list pstep) : Prop := match l with IndexStep _ :: _ => False | _ => True end.
 
 Lemma comps_flush : forall cur l, starts_key l ->
-  comps cur l = emit cur :: after l /\ comps_sem cur l = emit_ok cur && after_sem l.
+  comps cur l = emit cur :: after l /\ comps_sem cur l = after_sem l.
 Proof.
-  intros cur [|[n|i] r] H; cbn; [rewrite andb_true_r| |contradiction]; split; reflexivity.
+  intros cur [|[n|i] r] H; cbn; [| |contradiction]; split; reflexivity.
 Qed.
 
 Lemma later_starts_key : forall r, starts_key (flat_map psteps_of_comp r).
@@ -265,21 +248,15 @@ Proof.
   - cbn [vidx] in H. rewrite H. cbn [tk tx]. reflexivity.
 Qed.
 
-Lemma idx_tok_not_star : forall i, is_int_idx i = true -> tkind_eqb (tk (idx_tok i)) KASTERISK = false.
-Proof.
-  intros [z|s] H; [|discriminate]. unfold idx_tok. fold (int_tok z).
-  destruct (int_tok_kind z) as [[K|K] _]; rewrite K; reflexivity.
-Qed.
-
 Lemma str_const_quoted : forall b, str_const (CString b false) = c_quote :: b ++ [c_quote].
-Proof. intros b. unfold str_const, print_string_const. cbn [pr_const text_of flat_map tx]. rewrite app_nil_r. reflexivity. Qed.
+Proof. intros b. unfold PatternSyntax.str_const, print_string_const. cbn [PatternSyntax.pr_const text_of flat_map tx]. rewrite app_nil_r. reflexivity. Qed.
 
 Lemma pend_ident : forall n, ident_ok n = true -> pend_of_key (name_tok n) = PName n.
 Proof. intros n H. rewrite (name_tok_ident n H). reflexivity. Qed.
 Lemma pend_string : forall n, string_ok n = true -> pend_of_key (name_tok n) = PStr (slice_1_m1 n).
 Proof. intros n H. rewrite (name_tok_string n H). reflexivity. Qed.
-Lemma pend_hyphen : forall n, mem_N c_hyphen n = true -> lexb n = true -> pend_of_key (name_tok n) = PStr n.
-Proof. intros n Hh Hl. rewrite (name_tok_hyphen n Hh Hl). unfold pend_of_key. cbn [tk tx]. rewrite slice_1_m1_quoted. reflexivity. Qed.
+Lemma pend_body : forall n, lexb n = true -> ident_ok n = false -> pend_of_key (name_tok n) = PStr n.
+Proof. intros n Hl Hi. rewrite (name_tok_body n Hl Hi). unfold pend_of_key. cbn [tk tx]. rewrite slice_1_m1_quoted. reflexivity. Qed.
 
 Lemma later_after : forall r, forallb vlater r = true ->
   after (flat_map psteps_of_comp r) = r /\ after_sem (flat_map psteps_of_comp r) = true.
@@ -289,25 +266,23 @@ Proof.
   pose proof (later_starts_key r) as SK.
   destruct c as [n|n i|n]; cbn [vlater] in Hc; [| |discriminate].
   - (* basic component *)
-    cbn [flat_map psteps_of_comp List.app after after_sem].
-    assert (E : exists cur, pend_of_key (name_tok n) = cur /\ emit cur = ABasic n /\ emit_ok cur = true).
-    { apply orb_true_iff in Hc. destruct Hc as [Hc|Hc].
-      - exists (PName n). rewrite (pend_ident n Hc). repeat split.
-      - apply andb_true_iff in Hc. destruct Hc as [Hh Hl]. exists (PStr n). rewrite (pend_hyphen n Hh Hl).
-        repeat split. cbn [emit_ok]. rewrite Hh. reflexivity. }
-    destruct E as [cur [E1 [E2 E3]]]. rewrite E1.
-    destruct (comps_flush cur _ SK) as [C1 C2]. rewrite C1, C2, IA, IS, E2, E3. split; reflexivity.
+    cbn [flat_map PatternSyntax.psteps_of_comp List.app after after_sem].
+    assert (E : exists cur, pend_of_key (name_tok n) = cur /\ emit cur = ABasic n).
+    { destruct (ident_ok n) eqn:Hi.
+      - exists (PName n). rewrite (pend_ident n Hi). split; reflexivity.
+      - exists (PStr n). rewrite (pend_body n Hc Hi). split; reflexivity. }
+    destruct E as [cur [E1 E2]]. rewrite E1.
+    destruct (comps_flush cur _ SK) as [C1 C2]. rewrite C1, C2, IA, IS, E2. split; reflexivity.
   - (* list component *)
-    cbn [flat_map psteps_of_comp List.app after after_sem]. unfold pstep_of_idx.
-    assert (E : exists cur, pend_of_key (name_tok n) = cur /\ idx_name cur = n /\ idx_ok cur (idx_tok i) = true /\ vidx i = true).
-    { apply orb_true_iff in Hc. destruct Hc as [Hc|Hc]; apply andb_true_iff in Hc; destruct Hc as [Hn Hi].
-      - exists (PName n). rewrite (pend_ident n Hn). repeat split. exact Hi.
-      - exists (PStr (slice_1_m1 n)). rewrite (pend_string n Hn). split; [reflexivity|]. split; [|split].
-        + cbn [idx_name]. rewrite str_const_quoted. apply (quoted_text n Hn).
-        + cbn [idx_ok]. rewrite (idx_tok_not_star i Hi). reflexivity.
-        + apply is_int_vidx; exact Hi. }
-    destruct E as [cur [E1 [E2 [E3 E4]]]]. rewrite E1.
-    cbn [comps comps_sem]. rewrite E2, E3, (idx_of_tok i E4). cbn [andb].
+    cbn [flat_map PatternSyntax.psteps_of_comp List.app after after_sem]. unfold pstep_of_idx.
+    apply andb_true_iff in Hc. destruct Hc as [Hn Hi].
+    assert (E : exists cur, pend_of_key (name_tok n) = cur /\ idx_name cur = n).
+    { apply orb_true_iff in Hn. destruct Hn as [Hn|Hn].
+      - exists (PName n). rewrite (pend_ident n Hn). split; reflexivity.
+      - exists (PStr (slice_1_m1 n)). rewrite (pend_string n Hn). split; [reflexivity|].
+        cbn [idx_name]. rewrite str_const_quoted. apply (quoted_text n Hn). }
+    destruct E as [cur [E1 E2]]. rewrite E1.
+    cbn [comps comps_sem]. rewrite E2, (idx_of_tok i Hi).
     change (match flat_map psteps_of_comp r with
             | [] => [] | KeyStep n0 :: r' => comps (pend_of_key n0) r' | IndexStep _ :: _ => [] end)
       with (after (flat_map psteps_of_comp r)).
@@ -329,7 +304,7 @@ Proof.
   intros [ty comps] op H U. unfold vpath in H. cbn [ap_type ap_comps] in H.
   apply andb_true_iff in H. destruct H as [Hty H].
   destruct comps as [|c r]; [discriminate|]. apply andb_true_iff in H. destruct H as [Hc Hr].
-  unfold unv_path in U. cbn [ap_comps ap_type] in U. inversion U; subst op; clear U.
+  unfold PatternSyntax.unv_path in U. cbn [ap_comps ap_type] in U. inversion U; subst op; clear U.
   destruct (later_after r Hr) as [LA LS]. pose proof (later_starts_key r) as SK.
   unfold path_sem, sv_path_v.
   match goal with |- context [ObjPath ?a ?b (opc_of_steps ?l)] =>
@@ -339,7 +314,7 @@ Proof.
   - rewrite (first_name_tx n Hc).
     destruct (comps_flush (PName n) _ SK) as [C1 C2]. rewrite C1, C2, LA, LS. split; reflexivity.
   - apply andb_true_iff in Hc. destruct Hc as [Hn Hi]. rewrite (first_name_tx n Hn). unfold pstep_of_idx.
-    cbn [comps comps_sem idx_name idx_ok]. rewrite (idx_of_tok i Hi). cbn [andb].
+    cbn [comps comps_sem idx_name]. rewrite (idx_of_tok i Hi).
     change (match flat_map psteps_of_comp r with
             | [] => [] | KeyStep n0 :: r' => comps (pend_of_key n0) r' | IndexStep _ :: _ => [] end)
       with (after (flat_map psteps_of_comp r)).
@@ -371,25 +346,15 @@ Proof.
   destruct k; cbn in Hk; try discriminate; try reflexivity. exact Hok.
 Qed.
 
-Lemma idx_of_int : forall i, kind_in i [KIntPos; KIntNeg; KASTERISK] = true -> tkind_eqb (tk i) KASTERISK = false -> is_int_idx (idx_of i) = true.
-Proof.
-  intros [k s] H N. unfold kind_in in H. apply andb_true_iff in H. destruct H as [Hk _].
-  cbn [tk] in *. unfold idx_of. cbn [tk]. destruct k; cbn in Hk, N; try discriminate; reflexivity.
-Qed.
+Lemma emit_later : forall cur, cur_later cur -> vlater (emit cur) = true.
+Proof. intros [n|b] Hc; cbn [emit vlater cur_later] in *; [apply ident_lexb; exact Hc|exact Hc]. Qed.
 
-Lemma emit_later : forall cur, cur_later cur -> emit_ok cur = true -> vlater (emit cur) = true.
-Proof.
-  intros [n|b] Hc He; cbn [emit vlater cur_later emit_ok] in *.
-  - rewrite Hc. reflexivity.
-  - apply orb_true_iff in He. destruct He as [He|He]; [rewrite He, Hc; apply orb_true_r|rewrite He; reflexivity].
-Qed.
-
-Lemma list_later : forall cur i, cur_later cur -> kind_in i [KIntPos; KIntNeg; KASTERISK] = true -> idx_ok cur i = true ->
+Lemma list_later : forall cur i, cur_later cur -> kind_in i [KIntPos; KIntNeg; KASTERISK] = true ->
   vlater (AList (idx_name cur) (idx_of i)) = true.
 Proof.
-  intros [n|b] i Hc Hi Ho; cbn [idx_name vlater cur_later idx_ok] in *.
-  - rewrite Hc, (idx_of_vidx i Hi). reflexivity.
-  - rewrite str_const_quoted. apply negb_true_iff in Ho. rewrite (idx_of_int i Hi Ho), andb_true_r.
+  intros [n|b] i Hc Hi; cbn [idx_name vlater cur_later] in *; rewrite (idx_of_vidx i Hi), andb_true_r.
+  - rewrite Hc. reflexivity.
+  - rewrite str_const_quoted.
     assert (S : string_ok (c_quote :: b ++ [c_quote]) = true).
     { apply string_token_ok. unfold lexb in Hc. destruct (lex_body b); [discriminate|discriminate]. }
     rewrite S. apply orb_true_r.
@@ -399,13 +364,11 @@ Lemma comps_later : forall l cur, forallb wf_pstep l = true -> cur_later cur -> 
   forallb vlater (comps cur l) = true.
 Proof.
   fix IH 1. intros l cur Hw Hc Hs. destruct l as [|s r].
-  - cbn [comps comps_sem forallb] in *. rewrite (emit_later cur Hc Hs). reflexivity.
+  - cbn [comps forallb] in *. rewrite (emit_later cur Hc). reflexivity.
   - cbn [forallb] in Hw. apply andb_true_iff in Hw. destruct Hw as [Hws Hwr].
     destruct s as [n|i]; cbn [comps comps_sem wf_pstep] in *.
-    + apply andb_true_iff in Hs. destruct Hs as [He Hs]. cbn [forallb].
-      rewrite (emit_later cur Hc He), (IH r (pend_of_key n) Hwr (key_cur_later n Hws) Hs). reflexivity.
-    + apply andb_true_iff in Hs. destruct Hs as [Ho Hs]. cbn [forallb].
-      rewrite (list_later cur i Hc Hws Ho). cbn [andb].
+    + cbn [forallb]. rewrite (emit_later cur Hc), (IH r (pend_of_key n) Hwr (key_cur_later n Hws) Hs). reflexivity.
+    + cbn [forallb]. rewrite (list_later cur i Hc Hws). cbn [andb].
       destruct r as [|[n'|i'] r']; [reflexivity| |discriminate Hs].
       cbn [forallb] in Hwr. apply andb_true_iff in Hwr. destruct Hwr as [Hwn Hwr'].
       apply (IH r' (pend_of_key n') Hwr' (key_cur_later n' Hwn) Hs).
@@ -438,11 +401,43 @@ Proof.
   pose proof (first_tok_name _ Hf) as Fn.
   destruct (path_steps p) as [|[n|i] r].
   - cbn [comps emit vfirst forallb]. rewrite Fn. reflexivity.
-  - cbn [comps comps_sem forallb wf_pstep emit emit_ok] in *. apply andb_true_iff in Hsteps. destruct Hsteps as [Hn Hr'].
+  - cbn [comps comps_sem forallb wf_pstep emit] in *. apply andb_true_iff in Hsteps. destruct Hsteps as [Hn Hr'].
     cbn [vfirst]. rewrite Fn. cbn [andb]. apply (comps_later r (pend_of_key n) Hr' (key_cur_later n Hn) Hs).
-  - cbn [comps comps_sem forallb wf_pstep idx_name idx_ok] in *. apply andb_true_iff in Hsteps. destruct Hsteps as [Hi Hr'].
+  - cbn [comps comps_sem forallb wf_pstep idx_name] in *. apply andb_true_iff in Hsteps. destruct Hsteps as [Hi Hr'].
     cbn [vfirst]. rewrite Fn, (idx_of_vidx i Hi). cbn [andb].
     destruct r as [|[n'|i'] r']; [reflexivity| |discriminate Hs].
     cbn [forallb wf_pstep] in Hr'. apply andb_true_iff in Hr'. destruct Hr' as [Hn' Hr''].
     apply (comps_later r' (pend_of_key n') Hr'' (key_cur_later n' Hn') Hs).
+Qed.
+
+(* ------------------------------------------------------------------ *)
+(** * The path unvisit gives never has two index steps in a row *)
+
+Lemma after_sem_later : forall r, after_sem (flat_map psteps_of_comp r) = true.
+Proof.
+  induction r as [|c r IH]; [reflexivity|]. pose proof (later_starts_key r) as SK.
+  destruct c as [n|n i|n]; cbn [flat_map PatternSyntax.psteps_of_comp List.app after_sem].
+  - destruct (comps_flush (pend_of_key (name_tok n)) _ SK) as [_ C]. rewrite C. exact IH.
+  - unfold pstep_of_idx. cbn [comps_sem].
+    change (match flat_map psteps_of_comp r with
+            | [] => true | KeyStep n0 :: r' => comps_sem (pend_of_key n0) r' | IndexStep _ :: _ => false end)
+      with (after_sem (flat_map psteps_of_comp r)). exact IH.
+  - destruct (comps_flush (pend_of_key (name_tok n)) _ SK) as [_ C]. rewrite C. exact IH.
+Qed.
+
+Lemma unv_path_sem : forall p op, unv_path p = Some op -> path_sem op = true.
+Proof.
+  intros [ty comps] op U. unfold PatternSyntax.unv_path in U. cbn [ap_comps ap_type] in U.
+  destruct comps as [|c r]; [discriminate|]. inversion U; subst op; clear U.
+  pose proof (after_sem_later r) as LS. pose proof (later_starts_key r) as SK.
+  unfold path_sem.
+  match goal with |- context [ObjPath ?a ?b (opc_of_steps ?l)] =>
+    destruct (path_by_steps a b l) as [PS _]; cbn zeta in PS; rewrite PS; cbn [op_first] end.
+  destruct c as [n|n i|n]; cbn [fst snd List.app].
+  - destruct (comps_flush (PName (tx (name_tok n))) _ SK) as [_ C]. rewrite C. exact LS.
+  - unfold pstep_of_idx. cbn [comps_sem].
+    change (match flat_map psteps_of_comp r with
+            | [] => true | KeyStep n0 :: r' => comps_sem (pend_of_key n0) r' | IndexStep _ :: _ => false end)
+      with (after_sem (flat_map psteps_of_comp r)). exact LS.
+  - destruct (comps_flush (PName (tx (name_tok n))) _ SK) as [_ C]. rewrite C. exact LS.
 Qed.
